@@ -272,8 +272,267 @@ func rulePS3() Rule {
 				} else {
 					rr.Bad(f, key, f.Pos(), "the end of a quote is computed from the quoted text alone: for `\"\"` and `''` it is the zero position, and so is the end of every word and command that ends in one")
 				}
+				c.quoteEndWidths(f, rr)
 			}
 		}}
+}
+
+// quoteEndWidths is PS3 (c): the columns Quote.End adds are the quote characters
+// it stands for.  The function is followed path by path (assignments of a
+// position to a local, if, tagless switch, return); a position is the value's
+// end or the quote's own position plus a constant number of columns.  Behind
+// the value there is the closing quote - one column, none for a backslash,
+// which has no closing character; from the quote's own position of a quote
+// that quotes nothing it is two columns, one for a backslash.  A function
+// written in another shape is not judged by this clause.
+func (c *Ctx) quoteEndWidths(f *core.Func, rr *core.RuleResult) {
+	info := f.Info()
+	tokPos := c.fieldVar("ast", "Quote", "TokPos")
+	tok := c.fieldVar("ast", "Quote", "Tok")
+	value := c.fieldVar("ast", "Quote", "Value")
+	shift := c.fn("ast.Pos.shift")
+	key := f.Name + "|columns of the quote characters"
+	if tokPos == nil || tok == nil || value == nil || shift == nil {
+		rr.OK(f, key, f.Pos(), "not-applied", "the quote's fields or the column helper were not found: clause not applied")
+		return
+	}
+	type pv struct {
+		base  int // 1 the value's end, 2 the quote's position
+		shift int64
+	}
+	type know struct{ bs, tokZero int } // 0 unknown, 1 true, 2 false
+	type env map[types.Object]pv
+	gaveUp := false
+	var eval func(e ast.Expr, en env) (pv, bool)
+	eval = func(e ast.Expr, en env) (pv, bool) {
+		e = ast.Unparen(e)
+		switch x := e.(type) {
+		case *ast.Ident:
+			v, ok := en[info.Uses[x]]
+			return v, ok
+		case *ast.SelectorExpr:
+			if core.FieldOf(info, x) == tokPos {
+				return pv{2, 0}, true
+			}
+		case *ast.CallExpr:
+			se, ok := x.Fun.(*ast.SelectorExpr)
+			if !ok {
+				return pv{}, false
+			}
+			if fo := core.StaticCallee(info, x); fo != nil && c.P.FuncOf(fo) == shift && len(x.Args) == 1 {
+				k, isC := constInt(info, x.Args[0])
+				in, ok := eval(se.X, en)
+				if !isC || !ok {
+					return pv{}, false
+				}
+				return pv{in.base, in.shift + k}, true
+			}
+			if len(x.Args) == 0 && se.Sel.Name == "End" && core.FieldOf(info, se.X) == value {
+				return pv{1, 0}, true
+			}
+		}
+		return pv{}, false
+	}
+	// what a condition tells when it holds (pos) or does not
+	var learn func(e ast.Expr, pos bool, en env, k know) know
+	learn = func(e ast.Expr, pos bool, en env, k know) know {
+		e = ast.Unparen(e)
+		set := func(cur *int, v bool) {
+			if v {
+				*cur = 1
+			} else {
+				*cur = 2
+			}
+		}
+		switch x := e.(type) {
+		case *ast.UnaryExpr:
+			if x.Op == token.NOT {
+				return learn(x.X, !pos, en, k)
+			}
+		case *ast.BinaryExpr:
+			switch x.Op {
+			case token.LAND:
+				if pos {
+					return learn(x.Y, true, en, learn(x.X, true, en, k))
+				}
+			case token.LOR:
+				if !pos {
+					return learn(x.Y, false, en, learn(x.X, false, en, k))
+				}
+			case token.EQL, token.NEQ:
+				a, b := x.X, x.Y
+				if _, isC := constStr(info, a); isC {
+					a, b = b, a
+				}
+				if s, isC := constStr(info, b); isC && core.FieldOf(info, a) == tok {
+					eq := pos == (x.Op == token.EQL)
+					if s == "\\" {
+						set(&k.bs, eq)
+					} else if eq {
+						// equal to another quote character: not the backslash
+						k.bs = 2
+					}
+				}
+			}
+		case *ast.CallExpr:
+			if se, ok := x.Fun.(*ast.SelectorExpr); ok && se.Sel.Name == "IsZero" && len(x.Args) == 0 {
+				if v, ok := eval(se.X, en); ok && v.base == 2 && v.shift == 0 {
+					set(&k.tokZero, pos)
+				}
+			}
+		}
+		return k
+	}
+	type result struct {
+		v   pv
+		ok  bool
+		k   know
+		pos token.Pos
+	}
+	var results []result
+	copyEnv := func(en env) env {
+		out := env{}
+		for a, b := range en {
+			out[a] = b
+		}
+		return out
+	}
+	// walk returns the states that fall out of the statements
+	type state struct {
+		en env
+		k  know
+	}
+	var walk func(list []ast.Stmt, in []state) []state
+	walk = func(list []ast.Stmt, in []state) []state {
+		cur := in
+		for _, st := range list {
+			if gaveUp {
+				return nil
+			}
+			var next []state
+			for _, s := range cur {
+				switch x := st.(type) {
+				case *ast.AssignStmt:
+					if len(x.Lhs) != 1 || len(x.Rhs) != 1 {
+						gaveUp = true
+						continue
+					}
+					id, ok := x.Lhs[0].(*ast.Ident)
+					if !ok {
+						gaveUp = true
+						continue
+					}
+					obj := info.Defs[id]
+					if obj == nil {
+						obj = info.Uses[id]
+					}
+					en := copyEnv(s.en)
+					if v, ok := eval(x.Rhs[0], s.en); ok {
+						en[obj] = v
+					} else if _, isPos := en[obj]; isPos || namedTypeName(info.TypeOf(id)) == "ast.Pos" || namedTypeName(info.TypeOf(id)) == "Pos" {
+						gaveUp = true
+						continue
+					}
+					next = append(next, state{en, s.k})
+				case *ast.ReturnStmt:
+					if len(x.Results) != 1 {
+						gaveUp = true
+						continue
+					}
+					v, ok := eval(x.Results[0], s.en)
+					results = append(results, result{v, ok, s.k, x.Pos()})
+				case *ast.BlockStmt:
+					next = append(next, walk(x.List, []state{s})...)
+				case *ast.IfStmt:
+					if x.Init != nil {
+						gaveUp = true
+						continue
+					}
+					next = append(next, walk(x.Body.List, []state{{s.en, learn(x.Cond, true, s.en, s.k)}})...)
+					neg := state{s.en, learn(x.Cond, false, s.en, s.k)}
+					switch e := x.Else.(type) {
+					case nil:
+						next = append(next, neg)
+					case *ast.BlockStmt:
+						next = append(next, walk(e.List, []state{neg})...)
+					case *ast.IfStmt:
+						next = append(next, walk([]ast.Stmt{e}, []state{neg})...)
+					}
+				case *ast.SwitchStmt:
+					if x.Init != nil || x.Tag != nil {
+						gaveUp = true
+						continue
+					}
+					k := s.k
+					var dflt *ast.CaseClause
+					for _, cs := range x.Body.List {
+						cc := cs.(*ast.CaseClause)
+						if cc.List == nil {
+							dflt = cc
+							continue
+						}
+						if len(cc.List) != 1 {
+							gaveUp = true
+							break
+						}
+						for _, b := range cc.Body {
+							if br, isBr := b.(*ast.BranchStmt); isBr && br.Tok != token.BREAK {
+								gaveUp = true
+							}
+						}
+						next = append(next, walk(cc.Body, []state{{s.en, learn(cc.List[0], true, s.en, k)}})...)
+						k = learn(cc.List[0], false, s.en, k)
+					}
+					if dflt != nil {
+						next = append(next, walk(dflt.Body, []state{{s.en, k}})...)
+					} else {
+						next = append(next, state{s.en, k})
+					}
+				default:
+					gaveUp = true
+				}
+			}
+			cur = next
+		}
+		return cur
+	}
+	if f.Body == nil {
+		return
+	}
+	rest := walk(f.Body.List, []state{{env{}, know{}}})
+	if gaveUp || len(rest) != 0 || len(results) == 0 {
+		rr.OK(f, key, f.Pos(), "not-applied", "the function is not written as assignments, tests and returns of positions: clause not applied")
+		return
+	}
+	for _, r := range results {
+		if !r.ok {
+			rr.OK(f, key, f.Pos(), "not-applied", "a returned position is not the value's end or the quote's position plus a constant: clause not applied")
+			return
+		}
+	}
+	n := 0
+	for _, r := range results {
+		if r.k.tokZero == 1 {
+			continue // a quote without a position: clause (b)
+		}
+		n++
+		what, want := "behind the quoted text", int64(1)
+		if r.v.base == 2 {
+			what, want = "from the position of the opening quote of a quote that quotes nothing", 2
+		}
+		if r.k.bs == 1 {
+			want--
+		}
+		switch {
+		case r.k.bs == 0:
+			rr.Bad(f, key, r.pos, fmt.Sprintf("the end returned here (%s, +%d) is the same for a backslash, which has no closing character, and for the paired quotes, which have one", what, r.v.shift))
+			return
+		case r.v.shift != want:
+			rr.Bad(f, key, r.pos, fmt.Sprintf("the end returned here is %s plus %d column(s); the quote characters there take %d: End lies beside the last character of the quote, and so does the end of every word and command that ends in it", what, r.v.shift, want))
+			return
+		}
+	}
+	rr.OK(f, key, f.Pos(), "widths", fmt.Sprintf("%d returns: behind the quoted text one column for the closing quote and none for a backslash, from the quote's own position two and one", n))
 }
 
 // BR7: the first character of a value, not its first byte.
